@@ -332,6 +332,66 @@ func analyzeVolatile(ep *Episode, allPubs []*sim.Pub, final bool) *pubAnalysis {
 			}
 		}
 	}
+	// the resend of each connection: everything certainly pending at the dial,
+	// once each, PUBLISH in first-appearance order, PUBREL for what had its PUBREL out
+	resentOff, resentSeq := map[int]int{}, map[int]int64{}
+	for _, e := range w.Trace {
+		if e.Kind == "point" && e.Note == "connect.resent" {
+			resentOff[e.Conn], resentSeq[e.Conn] = e.Off, e.Seq
+		}
+	}
+	for ci, pk := range a.out {
+		c := w.Conns[ci]
+		end, done := resentOff[c.Idx]
+		if !done || len(pk) == 0 {
+			continue
+		}
+		seenIn := map[int]bool{}
+		var lastFirst [3]int64
+		for _, p := range pk[1:] {
+			if p.Offset >= end {
+				break
+			}
+			var u *idUse
+			switch {
+			case p.Type == wire.PUBLISH && p.QoS > 0:
+				u = byMarker[markerOfTopic(p.Topic)]
+			case p.Type == wire.PUBREL:
+				for _, x := range uses[p.ID] {
+					if x.first < c.DialSeq {
+						u = x
+					}
+				}
+			}
+			if u == nil {
+				continue
+			}
+			if seenIn[u.n] {
+				a.violate("C05", "resent-twice", "conn %d: message %d appears twice in the resend", c.Idx, u.n)
+			}
+			seenIn[u.n] = true
+			lvl := a.pubs[u.n].pub.Level
+			if u.first < lastFirst[lvl] {
+				a.violate("C05", "resend-out-of-order", "conn %d level %d: message %d resent after a message that first appeared later", c.Idx, lvl, u.n)
+			}
+			lastFirst[lvl] = u.first
+			if u.relSeq != 0 && u.relSeq < c.DialSeq && p.Type == wire.PUBLISH {
+				a.violate("C03", "publish-after-pubrel", "conn %d: message %d resent as PUBLISH although its PUBREL went out before", c.Idx, u.n)
+			}
+		}
+		for n, u := range byMarker {
+			pi := a.pubs[n]
+			if pi == nil || !pi.pub.Accepted() || pi.pub.RetSeq > c.DialSeq || u.first > c.DialSeq {
+				continue
+			}
+			// certainly pending: no final acknowledgement bytes were handed over before the resend ended
+			if (u.doneSeq == 0 || u.doneSeq > resentSeq[c.Idx]) && !seenIn[n] {
+				a.violate("C01", "pending-not-resent", "conn %d: connect completed its resend without message %d, which was on the wire before and had no final acknowledgement", c.Idx, n)
+				a.violate("C05", "pending-not-resent", "conn %d: connect completed its resend without message %d, which was on the wire before and had no final acknowledgement", c.Idx, n)
+			}
+		}
+	}
+
 	delivered := map[int]int{}
 	for _, d := range w.Broker.State.Deliveries {
 		delivered[markerOfTopic(d.Topic)]++
@@ -663,7 +723,9 @@ func analyzePubs(ep *Episode, allPubs []*sim.Pub, final bool) *pubAnalysis {
 		}
 		// (5) bounded progress
 		if final {
-			if p.ClosedSeq == 0 {
+			// (the exchange of an earlier generation went away with its process;
+			// completion shows in the removal of the record and the delivery)
+			if p.ClosedSeq == 0 && p.Gen == ep.D.Gen {
 				closedErr := false
 				for _, x := range p.XErrs {
 					if errors.Is(x.Err, mqtt.ErrClosed) {
